@@ -150,7 +150,11 @@ class Unit:
                 return self.resolve(t[2][0], impl)     # trusted: locking is the identity on the protected value
             if n in ("BTreeMap", "OrderedMap", "Map") and len(t[2]) == 2:
                 k = self.resolve(t[2][0], impl)
-                if k != ("str",): raise RsError("map with a non-string key is outside the subset")
+                if k[0] == "opaque":
+                    # map keyed by an opaque type: association list without duplicate keys, NO order (only the
+                    # order-insensitive operations get / contains_key / insert / len / is_empty / values().sum())
+                    return ("omap", k, self.resolve(t[2][1], impl))
+                if k != ("str",): raise RsError("map with a key that is neither a string nor an opaque type is outside the subset")
                 return ("map", k, self.resolve(t[2][1], impl))
             return ("opaque", n)
         if k == "opt": return ("opt", self.resolve(t[1], impl))
@@ -179,6 +183,8 @@ class Unit:
             if t[1] not in acc: acc.append(t[1])
         elif k in ("opt", "vec"): self.opaques_of(t[1], acc, seen)
         elif k == "map": self.opaques_of(t[2], acc, seen)
+        elif k == "omap":
+            self.opaques_of(t[1], acc, seen); self.opaques_of(t[2], acc, seen)
         elif k == "tuple":
             for x in t[1]: self.opaques_of(x, acc, seen)
         elif k == "result": self.opaques_of(t[1], acc, seen)
@@ -201,6 +207,9 @@ class Unit:
         if k == "vec": return "List %s" % self.lt(t[1], False) if top else "(List %s)" % self.lt(t[1], False)
         if k == "map":
             x = "List (String × %s)" % self.lt(t[2], False)
+            return x if top else "(" + x + ")"
+        if k == "omap":
+            x = "List (%s × %s)" % (self.lt(t[1], False), self.lt(t[2], False))
             return x if top else "(" + x + ")"
         if k == "tuple":
             s = " × ".join(self.lt(x, False) for x in t[1])
@@ -297,7 +306,7 @@ class Unit:
                 def deps(t):
                     if t[0] == "struct": emit_struct(t[1])
                     elif t[0] in ("opt", "vec"): deps(t[1])
-                    elif t[0] == "map": deps(t[2])
+                    elif t[0] in ("map", "omap"): deps(t[2])
                     elif t[0] == "tuple":
                         for x in t[1]: deps(x)
                 deps(self.struct_field(s, f))
@@ -313,6 +322,16 @@ class Unit:
             L.append("")
         for s in list(self.used_fields):
             emit_struct(s)
+        # structures that only occur in a signature (no field is read or written): emitted without fields
+        def sig_structs(t):
+            if t[0] == "struct": emit_struct(t[1])
+            elif t[0] in ("opt", "vec", "iter"): sig_structs(t[1])
+            elif t[0] in ("map", "omap"): sig_structs(t[2])
+            elif t[0] == "tuple":
+                for x in t[1]: sig_structs(x)
+        for key in self.order:
+            for _, t in self.fns[key].params: sig_structs(t)
+            sig_structs(self.fns[key].out_ty)
         for key in self.order:
             L += self.fns[key].lean_lines()
             L.append("")
@@ -915,6 +934,10 @@ class FnTranslator:
                 k, kt = self.expr(e[4][0], env, pre, ("str",)); self.check_ty(kt, ("str",), "map key")
                 x, xt = self.expr(e[4][1], env, pre, bt[2]); self.check_ty(xt, bt[2], "map value")
                 return self.place_set(recv, "(Rs.smapInsert %s %s %s)" % (base, k, x), env, pre)
+            if bt[0] == "omap" and e[2] == "insert":
+                k, kt = self.expr(e[4][0], env, pre, bt[1]); self.check_ty(kt, bt[1], "map key"); self.note_eq(bt[1])
+                x, xt = self.expr(e[4][1], env, pre, bt[2]); self.check_ty(xt, bt[2], "map value")
+                return self.place_set(recv, "(Rs.omapInsert %s %s %s)" % (base, k, x), env, pre)
             if bt[0] == "map" and e[2] == "remove":
                 k, kt = self.expr(e[4][0], env, pre, ("str",)); self.check_ty(kt, ("str",), "map key")
                 return self.place_set(recv, "(Rs.smapRemove %s %s)" % (base, k), env, pre)
@@ -1348,6 +1371,9 @@ class FnTranslator:
         if segs == ["Vec", "new"] and not args:
             if want is not None and want[0] == "vec": return "[]", want, "val"
             return "[]", ("vec", ("unknown",)), "val"
+        if len(segs) == 2 and segs[0] in ("BTreeMap", "OrderedMap", "Map") and segs[1] == "new" and not args \
+                and want is not None and want[0] in ("map", "omap"):
+            return "[]", want, "val"       # the empty map (only where the map type is known from the context)
         impl = None
         if len(segs) == 2 and segs[0] in ("Self", self.impl): impl = self.impl
         elif len(segs) != 1: raise RsError("call of %s is outside the subset" % "::".join(segs))
@@ -1428,6 +1454,7 @@ class FnTranslator:
             return v, bt, "val"
         base, bt = self.expr(recv, env, pre, None)
         k = bt[0]
+        if k == "viter" and m in ("copied", "cloned") and not args: return base, bt, "val"
         if m in ("clone", "copied", "cloned", "as_ref", "to_owned", "borrow") and not args and k != "iter":
             return base, bt, "val"
         if m == "into" and not args:
@@ -1440,6 +1467,19 @@ class FnTranslator:
         if k == "tryres": return self.tryres_method(base, bt, m, args, env, pre)
         if k == "vec" or k == "iter": return self.list_method(base, bt, m, turbo, args, env, pre, want)
         if k == "str" and m in ("to_string", "as_str", "to_owned") and not args: return base, bt, "val"
+        if k == "omap" and m in ("get", "contains_key") and len(args) == 1:
+            kk, kt = self.expr(args[0], env, pre, bt[1]); self.check_ty(kt, bt[1], "map key"); self.note_eq(bt[1])
+            if m == "get": return "(Rs.omapGet %s %s)" % (base, kk), ("opt", bt[2]), "val"
+            return "(Rs.omapGet %s %s).isSome" % (base, kk), BOOL, "val"
+        if k == "omap" and m == "len" and not args: return "%s.length" % base, ("int", "usize"), "val"
+        if k == "omap" and m == "is_empty" and not args: return "%s.isEmpty" % base, BOOL, "val"
+        if k == "omap" and m == "values" and not args:
+            # the values in an unspecified order: only `sum` may consume them
+            return "(%s.map (fun kv => kv.2))" % base, ("viter", bt[2]), "val"
+        if k == "viter":
+            if m in ("into_iter", "iter") and not args: return base, bt, "val"
+            if m == "sum" and not args: return self.list_method(base, ("iter", bt[1]), m, turbo, args, env, pre, want)
+            raise RsError("method .%s on the values of an opaque-key map is outside the subset (order-sensitive)" % m)
         if k == "map" and m == "get" and len(args) == 1:
             kk, kt = self.expr(args[0], env, pre, ("str",)); self.check_ty(kt, ("str",), "map key")
             return "(Rs.smapGet %s %s)" % (base, kk), ("opt", bt[2]), "val"
